@@ -638,6 +638,11 @@ static J gen_c03 (uint64_t seed, uint64_t idx)
 		e ["val"] = (long long) g.rng.pick<int64_t> ({ 0, 1, 2, -1, 0x7f, 0x80, 0xff, 0x100, 0x7fff, 0x8000, 0xffff, 0x7fffffff, (int64_t) 0x80000000LL, 0xffffffffLL, 0x7fffffffffffffffLL, (int64_t) g.rng.below (70000) }) ;
 		e ["width"] = (int) g.rng.pick<int> ({ 2, 4, 4, 8 }) ; e ["be"] = (int) g.rng.below (2) ;
 		if (structured) { e ["len"] = (long long) g.rng.pick<int64_t> ({ 0, 1, 2, 4, 8, 20, 20, 24, 36, 60, 257 }) ; e ["width"] = (int) g.rng.pick<int> ({ 1, 2, 2, 4, 4 }) ; }
+		{	// lengths that make a parser step backwards: "minus a few bytes" read as a 32-bit count (own stream)
+			GenCtx gv (sub_seed (seed, "C03v", idx * 16 + (uint64_t) k)) ;
+			if (gv.rng.chance (0.12)) e ["val"] = (long long) (0x100000000LL - (int64_t) gv.rng.pick<int64_t> ({ 4, 8, 8, 8, 12, 16, 20, 24, 2, 1 })) ;
+			if (structured && kind == "chunk_field" && gv.rng.chance (0.4)) e ["size_field"] = 1 ;
+		}
 		uint64_t rr = g.rng.below (100) ; e ["region"] = rr < 70 ? "head" : rr < 80 ? "tail" : "any" ;
 		e ["keep"] = (long long) g.rng.range (4, 128) ;
 		ed.push (e) ;
